@@ -413,3 +413,89 @@ def rule_key_normalisation(rep: Report, repo: Repo):
     mono = [n for n in own_nodes(f) if isinstance(n, ast.Assign) and norm(n.targets[0]) == "monomial"]
     rep.check(len(mono) == 1 and norm(mono[0].value) == "key.as_powers_dict()", R,
               "_symbolic_keys_to_tuples reads the exponent of each symbol from the key", "", loc(f))
+
+
+# ---------------------------------------------------------------------------
+# E2.8 _check_finite exhaustiveness over OneItem (C19)
+# ---------------------------------------------------------------------------
+
+REPRESENTATIVES = {
+    "int": {"good": [0, 3], "bad": [-1, -4]},
+    "slice": {"good": [slice(None, 3), slice(0, 3), slice(1, 4, 2)],
+              "bad": [slice(None, None), slice(2, None), slice(-1, 3)]},
+    "list[int]": {"good": [[0, 2], [3]], "bad": [[1, -1], [-2]]},
+}
+
+
+def rule_check_finite(rep: Report, repo: Repo):
+    from .absval import GuardTypeError, run_validator
+
+    R = "E2.check_finite"
+    tree = repo.trees["series"]
+    decl = [n for n in tree.body if isinstance(n, ast.Assign) and norm(n.targets[0]) == "OneItem"]
+    if len(decl) != 1:
+        raise AnalysisError(R, "declaration of OneItem not found in series.py")
+    members = []
+    def union(t):
+        if isinstance(t, ast.BinOp) and isinstance(t.op, ast.BitOr):
+            union(t.left); union(t.right)
+        else:
+            members.append(norm(t))
+    union(decl[0].value)
+    for m in members:
+        if m not in REPRESENTATIVES:
+            raise AnalysisError(R, f"index item type `{m}` has no representatives in the checker")
+    f = repo.find("series::BlockSeries::_check_finite", R)
+    arg = [a.arg for a in f.args.args if a.arg != "self"]
+    if len(arg) != 1:
+        raise AnalysisError(R, "unexpected signature of _check_finite")
+    for m in members:
+        for kind in ("good", "bad"):
+            for r in REPRESENTATIVES[m][kind]:
+                try:
+                    out = run_validator(f.body, {arg[0]: (0, r), "self": None}, R)
+                except GuardTypeError as e:
+                    out = ("raise", f"TypeError in `{e}`")
+                if kind == "good":
+                    ok = out[0] in ("fall", "return")
+                    want = "accepted"
+                else:
+                    ok = out == ("raise", "IndexError")
+                    want = "IndexError"
+                inst = f"series::BlockSeries._check_finite order item {m} = {r!r}: {want}"
+                if ok:
+                    rep.ok(R, inst, f"outcome {out}", repo.loc("series", f))
+                else:
+                    rep.fail(R, f"series::BlockSeries._check_finite {m} {'negative/unbounded' if kind == 'bad' else 'valid'} item {r!r} -> {out[0]} {out[1] or ''}".strip(),
+                             f"required: {want}; the validator's outcome on this class of item is {out}",
+                             repo.loc("series", f))
+    # both validators dominate the construction of the trial array, with the right arguments
+    g = repo.find("series::BlockSeries::__getitem__", R)
+    cfg = CFG(g)
+    dom = cfg.dominators()
+    trial = [n for n in cfg.nodes if n.ast is not None and isinstance(n.ast, ast.Assign)
+             and any(isinstance(c, ast.Call) and call_name(c) in ("np.zeros", "np.empty", "np.full") for c in ast.walk(n.ast.value))
+             and "trial" in norm(n.ast.targets[0])]
+    if not trial:
+        raise AnalysisError(R, "trial-array construction not found in __getitem__")
+    evaln = [n for n in cfg.nodes if n.ast is not None and any(
+        isinstance(c, ast.Call) and dotted(c.func) == "self.eval" for c in ast.walk(n.ast))
+        and not isinstance(n.ast, (ast.FunctionDef,))]
+    for name, argtext in (("_check_finite", ("item[n_finite:]", "item[len(self.shape):]")),
+                          ("_check_number_perturbations", ("item",))):
+        calls = [n for n in cfg.nodes if n.kind == "stmt" and isinstance(n.ast, ast.Expr)
+                 and isinstance(n.ast.value, ast.Call) and dotted(n.ast.value.func) == f"self.{name}"]
+        ok = bool(calls) and all(any(c.id in dom[t.id] for c in calls) for t in trial + evaln)
+        rep.check(ok, R, f"series::BlockSeries.__getitem__ `self.{name}(...)` dominates index resolution and evaluation",
+                  "validation happens before any element is evaluated", repo.loc("series", g))
+        okarg = bool(calls) and all(len(c.ast.value.args) == 1 and norm(c.ast.value.args[0]) in argtext for c in calls)
+        rep.check(okarg, R, f"series::BlockSeries.__getitem__ `self.{name}` receives {argtext[0]}",
+                  norm(calls[0].ast) if calls else "missing", repo.loc("series", g))
+    # _check_number_perturbations rejects a wrong number of indices
+    h = repo.find("series::BlockSeries::_check_number_perturbations", R)
+    tests = [n for n in own_nodes(h) if isinstance(n, ast.If)]
+    ok = len(tests) == 1 and norm(tests[0].test) in (
+        "len(item) != len(self.shape) + self.n_infinite", "len(item) != self.n_infinite + len(self.shape)") \
+        and isinstance(tests[0].body[0], ast.Raise) and "IndexError" in norm(tests[0].body[0])
+    rep.check(ok, R, "series::BlockSeries._check_number_perturbations raises IndexError unless len(item) == len(shape) + n_infinite",
+              norm(tests[0].test) if tests else "", repo.loc("series", h))
